@@ -55,3 +55,25 @@ REG.fn(S, "_extract", prop="C03", ret="Result[list[real]]",
            "len(solution) == n",
            "forall(q, implies(0 <= q < i and basis[q] < n, solution[basis[q]] == matrix[q][len(matrix[q]) - 1]), trig=basis[q])",
            "forall(j, implies(0 <= j < n and forall(q, implies(0 <= q < i, basis[q] != j)), solution[j] == 0), trig=solution[j])"])})
+
+# ---- milp._is_feasible: the acceptance test of every heuristic incumbent (rounding, LNS, warm start)
+REG.recfn("dotp", [("R", "list[real]"), ("X", "list[real]"), ("k", "int")], "real", on="k", base="0.0",
+          step="dotp(R, X, k - 1) + R[k - 1] * X[k - 1]", group="dotp")
+REG.fn(M, "_is_feasible", prop="C04", ret="bool", lemmas=["dotp"],
+       types={"x": "list[real]", "A": "list[list[real]]", "b": "list[real]", "int_set": "set[int]", "eps": "real", "lhs": "real", "_sum3": "real"},
+       requires=["forall(j, implies(has(int_set, j), 0 <= j < len(x)), trig=has(int_set, j))", "len(b) >= len(A)",
+                 "forall(i, implies(0 <= i < len(A), len(A[i]) >= len(x)), trig=A[i])"],
+       ensures=[
+           # True is answered only for a point that is non-negative, integral on the designated entries and satisfies every row, all within eps
+           "implies(result, forall(j, implies(0 <= j < len(x), x[j] >= -eps), trig=x[j]))",
+           "implies(result, forall(j, implies(has(int_set, j), abs(x[j] - pyround(x[j])) <= eps), trig=has(int_set, j)))",
+           "implies(result, forall(i, implies(0 <= i < len(A), dotp(A[i], x, len(x)) <= b[i] + eps), trig=A[i]))",
+           # ... and False only when one of the three fails
+           "implies(not result, exists(j, 0 <= j < len(x) and x[j] < -eps) or exists(j, has(int_set, j) and abs(x[j] - pyround(x[j])) > eps) or exists(i, 0 <= i < len(A) and dotp(A[i], x, len(x)) > b[i] + eps))",
+       ],
+       loops={1: LoopSpec(done="seen", invariants=["n == len(x)", "forall(j, implies(0 <= j < len(x), x[j] >= -eps), trig=x[j])",
+                                                   "forall(j, implies(seen[j], abs(x[j] - pyround(x[j])) <= eps), trig=seen[j])"]),
+              2: LoopSpec(index="q", invariants=["n == len(x)", "forall(j, implies(0 <= j < len(x), x[j] >= -eps), trig=x[j])",
+                                                 "forall(j, implies(has(int_set, j), abs(x[j] - pyround(x[j])) <= eps), trig=has(int_set, j))",
+                                                 "forall(i, implies(0 <= i < q, dotp(A[i], x, len(x)) <= b[i] + eps), trig=A[i])"]),
+              3: LoopSpec(invariants=["_sum3 == dotp(row, x, j)", "n == len(x)"])})
